@@ -1,9 +1,14 @@
 /-
 C02 — gradient, Hessian and BHHH returned with a value are its true derivatives.
-Property theorems only (lemmas in Proofs/Diff.lean).  Model: Model/Diff.lean.
+Property theorems only (lemmas in Proofs/Diff.lean, Proofs/FinDiff.lean, Proofs/IdManager.lean).
+Models: Model/Diff.lean (differentiation), Model/FinDiff.lean (tools.derivatives), Model/IdManager.lean (literal ids).
 -/
 import Model.Diff
 import Proofs.Diff
+import Model.FinDiff
+import Proofs.FinDiff
+import Model.IdManager
+import Proofs.IdManager
 
 open Diff
 
@@ -69,6 +74,118 @@ theorem package_flags (fl : Flags) :
   obtain ⟨g, h, b⟩ := fl
   cases g <;> cases h <;> cases b <;> simp [package]
 
+
+/-! ### the finite-difference self-check offered to users (`tools.derivatives`) -/
+
+/-- **The step of `findiff_g` / `findiff_h` is never zero**, whatever the coordinate (in particular
+at a coordinate that is exactly 0): the difference quotient is always defined. -/
+theorem fd_step_ne_zero (t x : ℝ) (ht : t ≠ 0) : FinDiff.fdStep t x ≠ 0 :=
+  FinDiff.fdStep_ne_zero t x ht
+
+/-- its size is `tau · max(1, |xᵢ|)` and it moves away from zero -/
+theorem fd_step_size (t x : ℝ) : |FinDiff.fdStep t x| = |t| * max 1 |x| :=
+  FinDiff.abs_fdStep t x
+
+theorem fd_step_sign (t x : ℝ) (ht : 0 < t) :
+    (0 ≤ x → 0 < FinDiff.fdStep t x) ∧ (x < 0 → FinDiff.fdStep t x < 0) :=
+  FinDiff.fdStep_sign t x ht
+
+/-- `findiff_g` is exact on a function that is affine along the coordinate -/
+theorem findiff_g_affine (t : ℝ) (ht : t ≠ 0) (f : List ℝ → ℝ) (x : List ℝ) (i : Nat)
+    (hi : i < x.length) (a : ℝ) (hline : ∀ s, f (x.set i s) = f x + a * (s - x.getD i 0)) :
+    (FinDiff.findiffG t f x).getD i 0 = a :=
+  FinDiff.findiffG_affine t ht f x i hi a hline
+
+/-- **`findiff_g` approximates the gradient**: entry `i` tends to the partial derivative with
+respect to coordinate `i` when the step parameter tends to 0. -/
+theorem findiff_g_tendsto (f : List ℝ → ℝ) (x : List ℝ) (i : Nat) (hi : i < x.length) (d : ℝ)
+    (h : HasDerivAt (fun s => f (x.set i s)) d (x.getD i 0)) :
+    Filter.Tendsto (fun t : ℝ => (FinDiff.findiffG t f x).getD i 0) (nhdsWithin 0 {0}ᶜ) (nhds d) :=
+  FinDiff.findiffG_tendsto f x i hi d h
+
+/-- **`findiff_h` approximates the Hessian**: entry `(r, i)` tends to the derivative of gradient
+entry `r` with respect to coordinate `i`. -/
+theorem findiff_h_tendsto (g : List ℝ → List ℝ) (x : List ℝ) (r i : Nat) (hr : r < x.length)
+    (hi : i < x.length) (d : ℝ)
+    (h : HasDerivAt (fun s => (g (x.set i s)).getD r 0) d (x.getD i 0)) :
+    Filter.Tendsto (fun t : ℝ => ((FinDiff.findiffH t g x).getD r []).getD i 0)
+      (nhdsWithin 0 {0}ᶜ) (nhds d) :=
+  FinDiff.findiffH_tendsto g x r i hr hi d h
+
+/-- **The self-check confirms a true gradient**: `check_derivatives` returns the value, gradient and
+Hessian of the function at `x` unchanged, and where the reported gradient entry is the partial
+derivative of the reported value, the reported discrepancy `gdiff` tends to 0 with the step. -/
+theorem check_derivatives_confirms (F : List ℝ → ℝ × List ℝ × List (List ℝ)) (x : List ℝ) (i : Nat)
+    (hi : i < x.length) (hg : (F x).2.1.length = x.length)
+    (h : HasDerivAt (fun s => (F (x.set i s)).1) ((F x).2.1.getD i 0) (x.getD i 0)) :
+    (∀ t : ℝ, ((FinDiff.checkDerivatives t F x).f, (FinDiff.checkDerivatives t F x).g,
+        (FinDiff.checkDerivatives t F x).h) = F x) ∧
+    Filter.Tendsto (fun t : ℝ => (FinDiff.checkDerivatives t F x).gdiff.getD i 0)
+      (nhdsWithin 0 {0}ᶜ) (nhds 0) :=
+  ⟨fun _ => rfl, FinDiff.gdiff_tendsto_zero F x i hi hg h⟩
+
+/-! ### the literal ids used for differentiation -/
+
+section ids
+variable {ν : Type} [LinearOrder ν]
+open IdM
+
+/-- **The literal id handed to the engine for the k-th sorted free parameter is k, and it denotes
+that parameter only**: when `IdManager.prepare` accepts the specification no other elementary
+expression (fixed parameter, random variable, draw, column of the database) has that id. -/
+theorem literal_ids_follow_names {α} (decls : List (Decl ν α)) (rvs draws cols : List ν) (t : Table ν)
+    (h : prepare decls rvs draws cols = .ok t) (k : Nat) (n : ν) (hk : t.free[k]? = some n) :
+    t.uid n = some k ∧ ∀ m, t.uid m = some k → m = n := by
+  have hnd : t.all.Nodup := by
+    unfold prepare at h
+    simp only at h
+    split at h
+    · rename_i hb
+      cases h
+      exact (nodupB_iff _).mp hb
+    · cases h
+  have hall : t.all[k]? = some n := by
+    have hlt : k < t.free.length := by
+      by_contra hc
+      rw [List.getElem?_eq_none (not_lt.mp hc)] at hk
+      cases hk
+    simp only [Table.all, List.append_assoc]
+    rw [List.getElem?_append_left hlt]
+    exact hk
+  refine ⟨indexOf_of_get _ hnd k n hall, fun m hm => ?_⟩
+  have := indexOf_get m _ k hm
+  rw [hall] at this
+  exact (Option.some.inj this).symm
+
+/-- **A free parameter named like a column of the database is refused** (otherwise the column
+would take over the parameter's literal id and the gradient entry would belong to the column). -/
+theorem parameter_named_like_column_refused {α} (decls : List (Decl ν α)) (rvs draws cols : List ν)
+    (n : ν) (h1 : ∃ d ∈ decls, d.name = n) (h2 : n ∈ cols) :
+    ∃ dups, prepare decls rvs draws cols = .error dups := by
+  unfold prepare
+  simp only
+  split
+  · rename_i hb
+    exfalso
+    have hnd := (nodupB_iff _).mp hb
+    simp only [Table.all] at hnd
+    obtain ⟨d, hd, hn⟩ := h1
+    have hmem : n ∈ sortDedup ((decls.filter (!·.fixed)).map (·.name)) ++
+        sortDedup ((decls.filter (·.fixed)).map (·.name)) ++ sortDedup rvs ++ sortDedup draws := by
+      cases hf : d.fixed
+      · have : n ∈ sortDedup ((decls.filter (!·.fixed)).map (·.name)) := by
+          rw [mem_sortDedup]
+          exact List.mem_map.mpr ⟨d, List.mem_filter.mpr ⟨hd, by simp [hf]⟩, hn⟩
+        simp [this]
+      · have : n ∈ sortDedup ((decls.filter (·.fixed)).map (·.name)) := by
+          rw [mem_sortDedup]
+          exact List.mem_map.mpr ⟨d, List.mem_filter.mpr ⟨hd, by simp [hf]⟩, hn⟩
+        simp [this]
+    exact (List.nodup_append.mp hnd).2.2 n hmem n h2 rfl
+  · exact ⟨_, rfl⟩
+
+end ids
+
 /-! ### non-vacuity -/
 
 /-- log(exp(b·x) + 1) / b² at b = 1/2, x = 2 is regular -/
@@ -77,5 +194,21 @@ example : Regular ({ par := fun _ => 1 / 2, var := fun _ => 2 } : Env ℝ)
   simp only [Regular, ev_add, ev_exp, ev_mul, ev_par, ev_var, ev_num, ev_powc, true_and, and_true]
   refine ⟨by positivity, by norm_num, ?_⟩
   positivity
+
+/-- the step at a coordinate that is exactly 0 is `tau`, not 0 -/
+example : FinDiff.fdStep (1 / 10000000 : ℝ) 0 = 1 / 10000000 := by
+  rw [FinDiff.fdStep_eq]; simp [FinDiff.dir]
+
+/-- `f(x) = 3·x₁ − x₀` is affine along coordinate 1 at the point `[0, 0]` -/
+example : ∀ s : ℝ, (fun p : List ℝ => 3 * p.getD 1 0 - p.getD 0 0) (([0, 0] : List ℝ).set 1 s) =
+    (fun p : List ℝ => 3 * p.getD 1 0 - p.getD 0 0) [0, 0] + 3 * (s - ([0, 0] : List ℝ).getD 1 0) := by
+  intro s; simp
+
+/-- an accepted specification with two free parameters whose sorted order differs from the order of
+appearance, and a refused one (parameter named like a column) -/
+example : (IdM.prepare (α := Nat) [⟨"b2", false, 0, none, none⟩, ⟨"b10", false, 0, none, none⟩] [] [] ["x", "cost"]).toOption.map
+    (fun t => (t.free, t.uid "b2")) = some (["b10", "b2"], some 1) := by decide
+example : (IdM.prepare (α := Nat) [⟨"b1", false, 0, none, none⟩, ⟨"cost", false, 0, none, none⟩] [] [] ["x", "cost"]).toOption.isNone = true := by
+  decide
 
 end C02
